@@ -137,6 +137,9 @@ func (e *hmacEngine) drawChunks() [][]byte {
 	if len(chunks) == 0 {
 		chunks = [][]byte{{}}
 	}
+	if r.Pct(15, "trailing-empty-write") {
+		chunks = append(chunks, []byte{}) // a zero-length Write after real data changes nothing
+	}
 	return chunks
 }
 
@@ -166,6 +169,13 @@ func (e *hmacEngine) session(tk *verifrt.Task, sha256v bool) {
 	}
 	if !bytes.Equal(given, key) {
 		e.fail("caller-key-modified", "%s: Acquire%s modified the caller's %d-byte key slice (first difference at %d)", tk.Name, name, len(key), firstDiff(given, key))
+	}
+	if r.Pct(50, "caller-wipes-key") {
+		// like crypto/hmac.New, Acquire must not keep a reference to the caller's
+		// key: the caller may wipe or reuse its buffer right away
+		for i := range given {
+			given[i] = 0xEE
+		}
 	}
 	ref := newRef()
 	rounds := 1 + r.Choose(3, "rounds")
